@@ -13,13 +13,18 @@
   `parse_term (show t)` to `make_term` for atoms without blanks, integers, variables and `$_`); for INTEGERS the round
   trip is proved outright — `integers_round_trip`: every i64 prints as a text that parses back to it, alone and as an
   argument (`Lemmas/ParseInt.lean`: the model of `str::parse::<i64>` inverts `Nat.repr`, by induction on the digit loop).
-  The round trip for structured terms, goals and rules is decided on every run by the
+  NESTED COMPLEX TERMS round-trip outright — `complex_terms_round_trip`: for every term built from i64 integers, atoms that
+  are plain words, variables and complex terms `fn(T1, ..., Tn)` of such terms, nested to any depth (`Canon d T t`,
+  `Lemmas/RoundTrip.lean`): the printer writes the term as its canonical text, and the parser reads that text back as the
+  term (by induction on the nesting, from the several-argument theorem of C20).
+  The round trip for the other structured terms (lists, quoted atoms, floats), goals and rules is decided on every run by the
   correspondence suite (grammar stream: text rendered by the harness' own renderer must parse
   to the denoted value, print back as the same text, and re-parse to the same value; the model's
   parser AND printer are compared with the implementation's on each of these cases).
 -/
 import SuironVerif.Model.ParseGoal
 import SuironVerif.Lemmas.ParseInt
+import SuironVerif.Lemmas.RoundTrip
 namespace Suiron.C19
 open Suiron.Parse
 
@@ -68,6 +73,37 @@ theorem integers_round_trip (po : POps) (sf : UInt64 → String) (f : Nat) (i : 
   rw [parseArguments_token po (f + 2) (int_token i), termFlags_int]
   have := makeTerm_int po (f + 1) i hlo hhi
   simp only [this, Res.bind]
+
+/-- NESTED COMPLEX TERMS: a term built from integers, plain-word atoms, variables and complex terms of such terms (`Canon`)
+    is printed as its canonical text T, and T parses back to the term — with any fuel from 2·depth + 2 on.  (`hα`: the
+    `is_alphabetic` of the `std` parameters holds of ASCII letters.) -/
+theorem complex_terms_round_trip (po : POps) (sf : UInt64 → String) (hα : ∀ c, isLetter c = true → po.isAlpha c = true)
+    {d : Nat} {T : Text} {t : Term} (h : Canon d T t) (f : Nat) :
+    (Term.show sf t).toList = T ∧ parseTerm po (2 * d + 2 + f) T = .ok t ∧
+    parseTerm po (2 * d + 2 + f) (Term.show sf t).toList = .ok t := by
+  have h1 := show_canon sf h
+  have h2 := parse_canon po hα h f
+  exact ⟨h1, h2, by rw [h1]; exact h2⟩
+
+/-- non-vacuity: `loves(Ann, friend($X, -42))` is canonical, two levels deep -/
+example : Canon 2 "loves(Ann, friend($X, -42))".toList
+    (.cplx (.cons (.atom "loves") (.cons (.atom "Ann") (.cons (.cplx (.cons (.atom "friend") (.cons (.var 0 "$X") (.cons (.int (-42)) .nil)))) .nil)))) := by
+  have inner : Canon 1 "friend($X, -42)".toList (.cplx (.cons (.atom "friend") (.cons (.var 0 "$X") (.cons (.int (-42)) .nil)))) :=
+    Canon.cplx 0 "friend".toList ["$X".toList, "-42".toList] [.var 0 "$X", .int (-42)] ⟨by decide, by decide⟩ (by simp) rfl
+      (by
+        intro i h1 h2
+        match i, h1, h2 with
+        | 0, _, _ => exact Canon.var 0 "X".toList ⟨by decide, by decide⟩
+        | 1, _, _ => exact Canon.int 0 (-42) (by decide) (by decide))
+      (by decide) (by decide)
+  exact Canon.cplx 1 "loves".toList ["Ann".toList, "friend($X, -42)".toList]
+    [.atom "Ann", .cplx (.cons (.atom "friend") (.cons (.var 0 "$X") (.cons (.int (-42)) .nil)))] ⟨by decide, by decide⟩ (by simp) rfl
+    (by
+      intro i h1 h2
+      match i, h1, h2 with
+      | 0, _, _ => exact Canon.word 1 "Ann".toList ⟨by decide, by decide⟩
+      | 1, _, _ => exact inner)
+    (by decide) (by decide)
 
 /-- non-vacuity: the smallest and the largest i64 -/
 example : -(2:Int)^63 ≤ -9223372036854775808 ∧ (-9223372036854775808 : Int) < (2:Int)^63 := by decide
